@@ -133,8 +133,10 @@ def output_dict(cfg, prefix):
     }
 
 
-def make_md(cfg, prefix):
-    """Build (molecule, md, run_kwargs) for a fresh run. Executed in the child only."""
+def make_md(cfg, prefix, params=None, md=None):
+    """Build (molecule, md, run_kwargs) for a fresh run. Executed in the child only.
+
+    With `params`/`md` given, only a new molecule is built and the existing driver object is reused."""
     import torch
 
     import seqm.MolecularDynamics as MDm
@@ -149,12 +151,15 @@ def make_md(cfg, prefix):
             xyz_np[m, : len(x)] = np.array(x)
     species = torch.as_tensor(sp_np, dtype=torch.int64)
     coords = torch.as_tensor(xyz_np, dtype=torch.float64)
-    params = seqm_parameters(cfg)  # the SAME dict object goes to Molecule and to the driver
+    if params is None:
+        params = seqm_parameters(cfg)  # the SAME dict object goes to Molecule and to the driver
     mol = Molecule(Constants(), params, coords, species)
     out = output_dict(cfg, prefix)
     eng = cfg["engine"]
     common = dict(seqm_parameters=params, timestep=cfg["dt"], Temp=cfg["temp"], output=out)
-    if eng in ("basic", "exc_basic"):
+    if md is not None:
+        pass
+    elif eng in ("basic", "exc_basic"):
         md = MDm.Molecular_Dynamics_Basic(**common)
     elif eng == "langevin":
         md = MDm.Molecular_Dynamics_Langevin(damp=cfg["damp"], **common)
@@ -217,9 +222,21 @@ def _child_incarnation(cfg, workdir, inc, fault, mode, opts):
             torch.randn(k)
             np.random.seed(k)
             np.random.rand(k)
-        mol, md, kw = make_md(cfg, prefix)
-        if ctx.get("on_md"):
-            ctx["on_md"](md, mol)
+        pre = cfg.get("pre_run")
+        if pre:
+            # the same driver object first runs another molecule/batch (driver-reuse stratum)
+            pcfg = {k: v for k, v in cfg.items() if k != "pre_run"}
+            pcfg.update(batch=pre["batch"], steps=pre["steps"])
+            pmol, md, pkw = make_md(pcfg, prefix + "-pre")
+            if ctx.get("on_md"):
+                ctx["on_md"](md, pmol)
+            md.run(pmol, **pkw)
+            md.output_config.prefix = prefix
+            mol, _, kw = make_md(cfg, prefix, params=md.seqm_parameters, md=md)
+        else:
+            mol, md, kw = make_md(cfg, prefix)
+            if ctx.get("on_md"):
+                ctx["on_md"](md, mol)
         md.run(mol, **kw)
     else:
         path = prefix + ".restart.pt"
